@@ -1,5 +1,7 @@
 import Driver.Common
 import Model.KeyPolicy
+import Model.KeyOps
+import Generated.KeyOps
 namespace Driver.C02
 open Lean Driver Model Model.Jws Model.KeyPolicy
 
@@ -53,6 +55,15 @@ def handle : Handler := fun j => do
     | .error e => pure (Json.mkObj [("error", errStr e)])
   | "oct_import" =>
     pure (Json.mkObj [("accepted", octImportOk Generated.Jose.possibleUnsafeKeys Generated.Jose.possibleUnsafeMarkers (← getHex j "raw"))])
+  | "jwe_keyops" =>
+    -- which operations the algorithm asks about: the regenerated table; whether the restricted key then performs: Model.KeyOps
+    let alg ← getStr j "alg"
+    let k : Model.KeyOps.Restr := { use := getStrOpt j "use", keyOps := strList j "key_ops", publicOnly := false }
+    match Generated.KeyOps.keyOps.find? (fun r => r.1 == "jwe" && r.2.1 == alg) with
+    | none => throw s!"alg {alg}"
+    | some r =>
+      let v (ops : List String) : String := if Model.KeyOps.performs ops k then "ok" else "refused"
+      pure (Json.mkObj [("encrypt", v r.2.2.2.1), ("decrypt", v r.2.2.2.2)])
   | op => throw s!"op {op}"
 
 end Driver.C02
